@@ -78,11 +78,21 @@ def write_if_changed(path, text):
     return True
 
 
+def all_gen_modules():
+    d = os.path.join(ROOT, 'translate')
+    return sorted(f[:-3] for f in os.listdir(d) if f.startswith('gen_') and f.endswith('.py'))
+
+
 def translate(gen_modules):
     """Regenerate coq/Gen/<Name>.v from the working tree.  Returns info per module."""
     info = {}
     for modname in gen_modules:
-        mod = importlib.import_module(modname)
+        try:
+            mod = importlib.import_module(modname)
+            if not hasattr(mod, 'NAME'):
+                continue
+        except Exception:
+            continue
         out = os.path.join(COQ, 'Gen', mod.NAME + '.v')
         snap = os.path.join(ROOT, 'translate', 'snapshots', mod.NAME + '.v')
         entry = {'module': modname, 'anchor_lost': None, 'differs_from_snapshot': False}
@@ -448,7 +458,19 @@ def check_property(prop, tier, seed, replay=None):
 
     with Lock('build'):
         # 1. translate
-        tinfo = translate(prop.gen_modules)
+        # every extractor is run (they are cheap) so that models imported from other properties find their facts;
+        # only the facts in this property's closure are judged below
+        tinfo_all = translate(all_gen_modules())
+        listed = set()
+        for mname in prop.gen_modules:
+            try:
+                listed.add(importlib.import_module(mname).NAME)
+            except Exception:
+                pass
+        mkproject()
+        run(['make', '-n', prop.properties_v + 'o'], cwd=COQ, timeout=300)   # refreshes .Makefile.d
+        in_closure = {os.path.basename(f)[:-2] for f in coq_deps([prop.properties_v + 'o']) if '/Gen/' in f}
+        tinfo = {k: v for k, v in tinfo_all.items() if k in listed or k in in_closure}
         cov['generated_facts'] = tinfo
         for gname, ginfo in tinfo.items():
             if ginfo.get('anchor_lost'):
